@@ -64,14 +64,17 @@ structure Hand where
   entry : Entry
 deriving Repr, DecidableEq, Inhabited
 
-/-- `Hand.__init__` : ValueError when the lookup has no entry; KeyError propagates -/
+/-- `Hand.__init__` : ValueError when the lookup has no entry or a card is not a real card (unknown suit;
+    since the F25 repair); KeyError (unknown rank) propagates from the lookup first -/
 def mkHand (T : Tables) (ht : HandType) (cs : List Card) : Except EvalErr Hand :=
   match hasEntry T ht.lookup cs with
   | .error e => .error e
   | .ok false => .error .valueError
-  | .ok true => match getEntry T ht.lookup cs with
-    | .ok e => .ok ⟨cs, e⟩
-    | .error e => .error e
+  | .ok true =>
+    if !cs.all Card.known then .error .valueError
+    else match getEntry T ht.lookup cs with
+      | .ok e => .ok ⟨cs, e⟩
+      | .error e => .error e
 
 /-- strength as an integer: `a < b` (python `Hand.__lt__`) iff `score a < score b` -/
 def score (ht : HandType) (h : Hand) : Int :=
